@@ -160,7 +160,7 @@ func genRemote() {
 			}
 			for _, u := range uses {
 				// the name of the parameter itself is irrelevant
-				rc = append(rc, funcName(fd)+": "+replaceIdent(u, param, "ctx"))
+				rc = append(rc, funcName(fd)+": "+remReplaceIdent(u, param, "ctx"))
 			}
 		}
 	}
@@ -408,8 +408,8 @@ func renumber(lines []string) []string {
 	return out
 }
 
-// replaceIdent: every occurrence of `name` as a whole identifier in s becomes `with`
-func replaceIdent(s, name, with string) string {
+// remReplaceIdent: every occurrence of `name` as a whole identifier in s becomes `with`
+func remReplaceIdent(s, name, with string) string {
 	if name == with {
 		return s
 	}
